@@ -89,6 +89,9 @@ def step (st : St) (toks : List String) : St × String :=
         | _ => none) with
     | some fs => ({ st with dec := { src := fs } }, "ok")
     | none => (st, "bad-op")
+  | ["newmsg"] =>
+    -- `NewMessageFromStream` on the same stream: an empty buffer, the frames not yet read stay on the wire
+    ({ st with dec := { src := st.dec.src } }, "ok")
   | ["get", "int"] =>
     match st.dec.getInt with
     | .ok (v, d) => ({ st with dec := d }, s!"ok {v}")
